@@ -31,8 +31,8 @@ func (c *Ctx) ruleComparatorChain() {
 	r := c.R
 	const rChain, rStage, rSym = "E7.chain", "E7.stage", "E7.symmetry"
 	r.Rule(rChain, "the predicate given to sort.Search in destination.insertSort calls the pairwise comparators on (new path, existing path) in the documented order, and maps each result with '== path1 → true, == path2 → false'", 11)
-	r.Rule(rStage, "each stage compares the documented key in the documented direction: whenever it decides and key(x) precedes key(y) it returns x (decision table enumerated over all consistent truth assignments of the comparisons it makes)", 11)
-	r.Rule(rSym, "each stage is mirror-symmetric: under every consistent assignment f(x,y) and f(y,x) select the same path (antisymmetry of the pairwise relation, a necessary condition for binary insertion to be order independent)", 11)
+	r.Rule(rStage, "each stage compares the documented key in the documented direction: whenever it decides and key(x) precedes key(y) it returns x (decision table enumerated over all consistent truth assignments of the comparisons it makes)", 8)
+	r.Rule(rSym, "each stage is mirror-symmetric: under every consistent assignment f(x,y) and f(y,x) select the same path (antisymmetry of the pairwise relation, a necessary condition for binary insertion to be order independent)", 8)
 	ins := c.P.Func("(*internal/pkg/table.destination).insertSort")
 	if ins == nil {
 		r.Undec(rChain, "-", "anchor:insertSort", "-", "destination.insertSort not found")
@@ -167,7 +167,7 @@ func (c *Ctx) ruleComparatorChain() {
 		case "origin":
 			key = "," + attrConst("BGP_ATTR_TYPE_ORIGIN") + ")"
 		case "med":
-			key = medKey(s.fn, attrConst("BGP_ATTR_TYPE_MULTI_EXIT_DISC"))
+			key = c.medKey(s.fn, attrConst("BGP_ATTR_TYPE_MULTI_EXIT_DISC"))
 			if key == "" {
 				r.Bad(rStage, sk, sp.Name, pos, "no key closure of this stage reads the MULTI_EXIT_DISC attribute")
 				continue
@@ -472,8 +472,12 @@ func checkDirection(rows []cmpchain.Outcome, sp stageSpec, key string) string {
 }
 
 // medKey finds the opaque key term of the MED stage: the closure that reads attribute MED.
-func medKey(fn *ssa.Function, medConst string) string {
-	for _, an := range fn.AnonFuncs {
+func (c *Ctx) medKey(fn *ssa.Function, medConst string) string {
+	// a closure of the comparator or a helper of the package it calls
+	for _, an := range c.withHelpers(fn, 1) {
+		if an == fn {
+			continue
+		}
 		for _, b := range an.Blocks {
 			for _, in := range b.Instrs {
 				if call, ok := in.(*ssa.Call); ok {
